@@ -72,6 +72,10 @@ def process_level(res, tier):
             es = doc["datasets"]["/EnergySpread/data"]["data"][bunch::nbunch]
             bcase = case + (" bunch=%d" % bunch if nbunch > 1 else "")
             d = (10.0 if geo == 1 else 12.0) / (n - 1)
+            # "from any initial size": the run has to start from the size it was asked to start from (or the convergence below is the same run many times)
+            if not (abs(bl[0] - zoom) <= 0.03 * zoom and abs(es[0] - zoom) <= 0.03 * zoom):
+                res.violate("C04/process/initial-size-is-not-the-requested-one", bcase, "InitialDistZoom %g: the first record has bunch length %.5f, energy spread %.5f" % (zoom, bl[0], es[0]), replay=rp)
+                continue
             if fptype == 3:
                 k = steps // 8
                 mq, mp = sum(bl[-k:]) / k, sum(es[-k:]) / k
